@@ -14,6 +14,10 @@ NA = {
 }
 
 CHECKS = {
+ "C02": dict(engine="SEQ", category="exploration", design="§4 C02",
+   technique="deterministic simulation of evaluation order and collaborator outcomes: every consultation order of the schemes inside each alternative is enumerated per generated outcome vector by permuting RouteAuthenticator.Schemes; reference OR-of-ANDs model over the observed trace",
+   text="The order in which the schemes of one alternative are consulted is a map-iteration order inside a dependency: fixed per process, random across processes, so unit tests see one order per run. Here each tape-generated (requirement structure, per-scheme outcome vector, authorizer behaviour, right-or-wrong rest of the request) is served once for every consultation order (all permutations, ≤36 combinations per run), through the full API handler and through the accessor sequence generated servers use; a reference model over the observed consultation trace decides admission, refusal status, principal/scopes/admitting alternative, and that neither the body stream nor a consumer nor the handler was touched on refusal. Seeded sampling of structures and vectors, enumeration of orders; not proof.",
+   note="The model speaks only about schemes actually consulted (a short-circuited AND is never flagged); any satisfied alternative may admit; any consulted rejecting scheme's status is accepted."),
  "C13": dict(engine="K2", category="exploration", design="§4 C13",
    technique="deterministic simulation: seeded exclusive scheduler with race-detector-invisible hand-off (raw pipe syscalls) over statement-level yield points, -race build; solo-equality oracle + admitted race reports; sequential consumer-selection runs against a reference table",
    text="Part B (simulation target): 2..8 tasks call Submit on one fresh Runtime; exactly one task runs at a time and control is handed over by raw pipe system calls that the race detector does not see, so the detector reports every conflicting access pair that only the simulator's serialisation orders — deterministically for a tape. Preemption happens at instrumented statement boundaries (PCT-style change points from the tape) and at transport calls. Oracles: each caller's observation equals its solo execution (own token, own consumer), and no race report with both stacks inside go-openapi/runtime. Part A: sequential Submit calls over generated Content-Type spellings × registries × status/header sets × operation-level vs runtime-level client/context against a reference selection table (input sampling, said plainly). Seeded sampling of schedules, not proof.",
